@@ -45,6 +45,16 @@ def tscale (c : Rat) : ETime → ETime
   | none => none
   | some t => some (c * t)
 
+/-- `time -= t` (`inf - t` is `inf`) -/
+def tsub : ETime → Rat → ETime
+  | none, _ => none
+  | some x, t => some (x - t)
+
+/-- a map on finite times -/
+def tmapT (f : Rat → Rat) : ETime → ETime
+  | none => none
+  | some x => some (f x)
+
 inductive SizeFn
   | constant | exponential | linear | other
 deriving DecidableEq, Repr
@@ -140,6 +150,8 @@ deriving DecidableEq, Repr
 structure AdmixNewRow where
   npop : Nat
   fn : String
+  /-- the arguments are entries of the list made by `_make_sorted_proportions_list` (false: of the raw `proportions`) -/
+  sorted : Bool
   slots : List Nat
 deriving DecidableEq, Repr
 
@@ -225,6 +237,27 @@ structure Graph (ε : Type) where
   migs : List GMig
   pulses : List GPulse
 deriving Repr
+
+/-- epoch types whose times can be re-expressed in another unit -/
+class TimeScalable (ε : Type) where
+  tmap : (Rat → Rat) → ε → ε
+
+instance : TimeScalable InEpoch := ⟨fun f e => { e with et := f e.et }⟩
+instance : TimeScalable OutEpoch := ⟨fun f e => { e with et := f e.et }⟩
+
+def GDeme.tmap {ε : Type} [TimeScalable ε] (f : Rat → Rat) (d : GDeme ε) : GDeme ε :=
+  { d with start := tmapT f d.start, epochs := d.epochs.map (TimeScalable.tmap f) }
+
+def GMig.tmap (f : Rat → Rat) (m : GMig) : GMig := { m with st := tmapT f m.st, et := f m.et }
+
+def GPulse.tmap (f : Rat → Rat) (p : GPulse) : GPulse := { p with time := f p.time }
+
+/-- every finite time of the graph mapped by `f` (names, sizes and rates untouched) -/
+def Graph.tmap {ε : Type} [TimeScalable ε] (f : Rat → Rat) (g : Graph ε) : Graph ε :=
+  { demes := g.demes.map (GDeme.tmap f), migs := g.migs.map (GMig.tmap f), pulses := g.pulses.map (GPulse.tmap f) }
+
+/-- demes' `Graph.in_generations()`: every time divided by the generation time (rates are per generation in every unit) -/
+def Graph.inGenerations {ε : Type} [TimeScalable ε] (gt : Rat) (g : Graph ε) : Graph ε := g.tmap (fun x => x / gt)
 
 /-- an untouched epoch seen as the output type of `_shift_deme_time` (`slice(g, 0)` returns `g` itself) -/
 def InEpoch.toOut (e : InEpoch) : OutEpoch := { fn := e.fn, ss := e.ss, es := some (Sym.r e.es), et := e.et }
